@@ -127,6 +127,7 @@ var touchTable = map[string]map[string]string{
 	"(*server.HealthCheck).check":                        {"own header:set User-Agent": "the probe's own request"},
 	"(*server.ErrorPageMiddleware).respondWithErrorPage": {"response header:set Content-Type": "proxy-generated page"},
 	"(*server.Service).redirectToHTTPS":                  {"response header:set Connection": "redirect response"},
+	"(*server.Service).serviceRequestWithTarget":         {"response header:set Connection": "redirect response"},
 }
 
 func r131(c *Ctx, rule string) {
